@@ -93,9 +93,18 @@ def replay(p):
             cfg = multi_cfg(tuple(p["sub"]), tuple(p["js"]))
             amp, config = AT.build_model(cfg)
             _setp(amp, p.get("params"))
-            data = AT.phsp_data(config, 2)
-            dens = _np(amp(data))
-            ref = closed_form(cfg, _p4_of(data), _params_of(amp))
+            if p.get("frame") == "moving":
+                # closed form from the events in the parent rest frame (explicit boosts), density from the same events
+                # given to the library in the moving frame
+                from props.C04 import boosted
+
+                p4 = AT.phsp_p4(config, 2)
+                dens = _np(amp(AT.data_of(config, boosted(p4))))
+                ref = closed_form(cfg, p4, _params_of(amp))
+            else:
+                data = AT.phsp_data(config, 2)
+                dens = _np(amp(data))
+                ref = closed_form(cfg, _p4_of(data), _params_of(amp))
             err = float(np.max(np.abs(dens - ref)))
             return {"reproduced": bool(err > 1e-9), "error_magnitude": err}
         if kind == "single":
